@@ -275,9 +275,9 @@ fn conform(tr: &Trace, prog: Prog, perm_k: u64, threads: Option<usize>, what: se
 }
 
 fn letters(thorough: bool) -> Vec<L> {
-    let mut v = vec![L::Main(0), L::Main(1), L::Main(3), L::Main(4), L::BadTrg, L::UnknownBank, L::Chronobox];
+    let mut v = vec![L::Main(0), L::TwoTrg, L::Main(3), L::Main(4), L::BadTrg, L::UnknownBank, L::Chronobox];
     if thorough {
-        v.extend([L::Main(2), L::TwoTrg, L::NoTrg, L::Sequencer, L::UnknownId]);
+        v.extend([L::Main(2), L::Main(1), L::NoTrg, L::Sequencer, L::UnknownId]);
     }
     v
 }
